@@ -55,6 +55,15 @@ LIMIT_BITS = 46
 # expressions:  ('num', n>=0) ('var', name) ('neg', e) ('add'|'sub'|'mul', a, b) ('vec', [e...])
 # ------------------------------------------------------------------------------------------------
 OPS = {'add': '+', 'sub': '-', 'mul': '*'}
+# ('numsuf', n, suffix): a number with a suffix;  ('call', f, e): an author-defined (non-random) function of one argument.
+# The harness's own tables (not the library's):
+SUFFIX_VALUE = {'%': 0.01, 'k': 1e3, 'M': 1e6}
+METRIC = ('k', 'M')
+USER_FUNCS = {'dbl': (lambda x: 2 * x), 'sq': (lambda x: x * x)}
+
+
+def numsuf_value(n, suf):
+    return Fraction(float(n) * SUFFIX_VALUE[suf])      # eval_number: float(text) * suffixes[suffix]
 
 
 def render(e):
@@ -63,6 +72,10 @@ def render(e):
         return str(e[1])
     if k == 'var':
         return e[1]
+    if k == 'numsuf':
+        return '%d%s' % (e[1], e[2])
+    if k == 'call':
+        return '%s(%s)' % (e[1], render(e[2]))
     if k == 'neg':
         return '(-%s)' % render(e[1])
     if k in OPS:
@@ -78,6 +91,11 @@ def coq_expr(e):
         return '(N_ %d)' % e[1]
     if k == 'var':
         return '(V_ "%s")' % e[1]
+    if k == 'numsuf':
+        return '(ENum %s)' % core.qlit(numsuf_value(e[1], e[2]))
+    if k == 'call':       # dbl(x) = 2*x, sq(x) = x*x: expressed in the model's fragment
+        a = coq_expr(e[2])
+        return '(EMul (N_ 2) %s)' % a if e[1] == 'dbl' else '(EMul %s %s)' % (a, a)
     if k == 'neg':
         return '(ENeg %s)' % coq_expr(e[1])
     if k in OPS:
@@ -89,12 +107,14 @@ def coq_expr(e):
 
 def expr_vars(e):
     k = e[0]
-    if k == 'num':
+    if k in ('num', 'numsuf'):
         return set()
     if k == 'var':
         return {e[1]}
     if k == 'neg':
         return expr_vars(e[1])
+    if k == 'call':
+        return expr_vars(e[2])
     if k in OPS:
         return expr_vars(e[1]) | expr_vars(e[2])
     out = set()
@@ -142,6 +162,12 @@ def fr_eval(e, env):
         if e[1] not in env:
             raise FormulaError('undefined ' + e[1])
         return env[e[1]]
+    if k == 'numsuf':
+        return ('s', (numsuf_value(e[1], e[2]), Fraction(0)))
+    if k == 'call':
+        if e[1] == 'dbl':
+            return fr_eval(('mul', ('num', 2), e[2]), env)
+        return fr_eval(('mul', e[2], e[2]), env)
     if k == 'neg':
         v = fr_eval(e[1], env)
         if v[0] == 's':
@@ -380,6 +406,13 @@ NAME_POOL = ['a', 'b', 'c', 'g', 'h', 'm', 'p', 'q', 'x', 'y', 'z', 'u', 'w', 'r
 UNDEFINED_POOL = ['zz', 'n_{99}', 'undefined1', 'q_{-7}', 'Pi']
 
 
+def safe_addsub(op, ea, eb, ba, bb, da, db):
+    """a sum that stays exactly representable; otherwise the second operand is kept in the formula but multiplied by 0"""
+    if (ba + bb).bit_length() + max(da, db) < 52:
+        return (op, ea, eb), ba + bb, max(da, db)
+    return ('add', ea, ('mul', ('num', 0), eb)), ba, da
+
+
 def combine_terms(rng, terms):
     """terms: list of (expr, type, bound, bits); fold into one well-typed expression keeping values exactly representable"""
     terms = list(terms)
@@ -391,13 +424,16 @@ def combine_terms(rng, terms):
         small = (ba * bb * 4).bit_length() + da + db < LIMIT_BITS
         if ta[0] == 's' and tb[0] == 's':
             op = rng.choice(['add', 'sub', 'mul']) if small else rng.choice(['add', 'sub'])
-            new = ((op, ea, eb), ('s', 0), ba * bb if op == 'mul' else ba + bb, da + db if op == 'mul' else max(da, db))
+            if op == 'mul':
+                new = ((op, ea, eb), ('s', 0), ba * bb, da + db)
+            else:
+                new = (lambda r: (r[0], ('s', 0), r[1], r[2]))(safe_addsub(op, ea, eb, ba, bb, da, db))
         elif ta[0] == 'v' and tb[0] == 'v' and ta[1] == tb[1]:
             op = rng.choice(['add', 'sub', 'mul']) if small else rng.choice(['add', 'sub'])
             if op == 'mul':
                 new = ((op, ea, eb), ('s', 0), ta[1] * ba * bb, da + db)
             else:
-                new = ((op, ea, eb), ta, ba + bb, max(da, db))
+                new = (lambda r: (r[0], ta, r[1], r[2]))(safe_addsub(op, ea, eb, ba, bb, da, db))
         elif ta[0] == 's' and tb[0] == 'v' and small:
             new = (('mul', ea, eb) if rng.random() < 0.5 else ('mul', eb, ea), tb, ba * bb, da + db)
         elif ta[0] == 'v' and tb[0] == 's' and small:
@@ -411,18 +447,33 @@ def combine_terms(rng, terms):
                 unit = ('vec', [('num', rng.randrange(0, 3)) for _ in range(t[1])])
                 return ('mul', e, unit), 2 * t[1] * b, d
             (sa, ba2, da2), (sb, bb2, db2) = to_scalar(ea, ta, ba, da), to_scalar(eb, tb, bb, db)
-            new = ((rng.choice(['add', 'sub']), sa, sb), ('s', 0), ba2 + bb2, max(da2, db2))
+            new = (lambda r: (r[0], ('s', 0), r[1], r[2]))(safe_addsub(rng.choice(['add', 'sub']), sa, sb, ba2, bb2, da2, db2))
         if rng.random() < 0.12:
             new = (('neg', new[0]),) + new[1:]
         terms.append(new)
     return terms[0]
 
 
-def gen_formula(rng, deps_info, allow_vec=True):
-    """deps_info: list of (name, type, bound, bits).  Uses every dependency at least once."""
+def gen_formula(rng, deps_info, allow_vec=True, extras=()):
+    """deps_info: list of (name, type, bound, bits).  Uses every dependency at least once.
+    extras: 'percent' / 'metric' (numbers with these suffixes may appear), 'funcs' (dbl, sq may be applied)."""
     terms = [(('var', n), t, b, d) for n, t, b, d in deps_info]
     for _ in range(rng.choice([0, 0, 1, 1, 2])):
         terms.append((('num', rng.randrange(0, 6)), ('s', 0), 5, 0))
+    sufs = (['%'] if 'percent' in extras else []) + (list(METRIC) if 'metric' in extras else [])
+    if sufs and rng.random() < (0.6 if 'metric' in extras else 0.25):
+        suf = rng.choice(sufs)
+        n = rng.choice([25, 50, 75, 100, 200]) if suf == '%' else rng.randrange(1, 6)
+        v = numsuf_value(n, suf)
+        if v.denominator <= 4:          # keep every intermediate exactly representable (exact comparison downstream)
+            terms.append((('numsuf', n, suf), ('s', 0), int(abs(v)) + 1, (v.denominator.bit_length() - 1)))
+    if 'funcs' in extras:
+        for i, (e, t, b, d) in enumerate(terms):
+            if t[0] == 's' and rng.random() < 0.2:
+                if rng.random() < 0.5:
+                    terms[i] = (('call', 'dbl', e), t, 2 * b, d)
+                elif (b * b * 4).bit_length() + 2 * d < LIMIT_BITS:
+                    terms[i] = (('call', 'sq', e), t, b * b, 2 * d)
     if not terms:
         terms.append((('num', rng.randrange(0, 9)), ('s', 0), 8, 0))
     if allow_vec and rng.random() < 0.15 and all(t[1][0] == 's' for t in terms) and len(terms) >= 2:
@@ -491,7 +542,7 @@ def gen_graph(rng, seed_tag, allow_illtyped=True):
             mags = [abs(x) for pair in ([v[1]] if v[0] == 's' else v[1]) for x in pair]
             bits = 52 if consts[c][0] in ('pi', 'e') else 1
             di.append((c, const_type(consts[c]), int(max(mags)) + 1, bits))
-        e, t, b, d = gen_formula(rng, di)
+        e, t, b, d = gen_formula(rng, di, extras=('percent', 'metric', 'funcs') if rng.random() < 0.35 else ())
         if allow_illtyped and rng.random() < 0.03:
             e, t = ('add', e, ('vec', [('num', 1), ('num', 2)])) if t[0] == 's' else ('add', e, ('num', 1)), t
         sf[nm] = ['dep', tolist(e)]
@@ -555,7 +606,7 @@ def orders_for(rng, names, k):
 def run_l1(cfg, patience=5):
     """cfg = {symbols, sf, consts, samples}; returns (status, value, log)"""
     from mitxgraders import sampling
-    from mitxgraders.helpers.calc.mathfuncs import DEFAULT_FUNCTIONS, DEFAULT_SUFFIXES
+    functions, suffixes = eval_scope(True)
     sampling.set_seed(stable_seed('np', cfg.get('tag', 0)) % (2 ** 32))
     st, sample_from = core.guarded(lambda: {s: make_sampler(s, cfg['sf'][s]) for s in cfg['sf']}, seconds=LONG)
     if st != 'ret':
@@ -563,13 +614,26 @@ def run_l1(cfg, patience=5):
     consts = {c: const_value(cfg['consts'][c]) for c in cfg['consts']}
     del LOG[:]
     st, out = core.guarded(sampling.gen_symbols_samples, list(cfg['symbols']), cfg['samples'], sample_from,
-                           DEFAULT_FUNCTIONS, DEFAULT_SUFFIXES, consts, seconds=patience)
+                           functions, suffixes, consts, seconds=patience)
     if st == 'timeout' and confirm_timeout(patience):
         return run_l1(cfg, patience=LONG)        # a loaded machine is not a looping implementation: ask again, patiently
     return st, out, list(LOG)
 
 
 LONG = 90
+
+
+def eval_scope(metric):
+    """(functions, suffixes) in which dependent formulas are meant to be evaluated: the grader's functions (defaults +
+    the author's non-random functions) and suffixes (% and, with metric_suffixes=True, the metric ones)"""
+    from mitxgraders.helpers.calc.mathfuncs import DEFAULT_FUNCTIONS, DEFAULT_SUFFIXES, METRIC_SUFFIXES
+    functions = dict(DEFAULT_FUNCTIONS)
+    functions.update(USER_FUNCS)
+    suffixes = dict(DEFAULT_SUFFIXES)
+    if metric:
+        suffixes.update(METRIC_SUFFIXES)
+    return functions, suffixes
+
 TIMEOUTS = {'confirmed': 0, 'faced': 0}
 
 
@@ -658,7 +722,7 @@ def oracle_l1(cfg, st, out, log):
             if sf[s][0] != 'dep':
                 continue
             others = {key: val for key, val in d.items() if key != s}
-            est, ev = core.guarded(evaluator, render(fromlist(sf[s][1])), others, DEFAULT_FUNCTIONS, DEFAULT_SUFFIXES, seconds=LONG)
+            est, ev = core.guarded(evaluator, render(fromlist(sf[s][1])), others, *eval_scope(True), seconds=LONG)
             if est != 'ret':
                 fails.append('sample %d: formula of %s does not evaluate on the other values of the sample: %r' % (i, s, ev))
             elif not same_value(ev[0], d[s]):
@@ -1031,6 +1095,7 @@ def gen_l2(rng, tag):
     consts = dict(DEFAULT_CONST_SPECS)
     consts.update(user_consts)
     sf, info, topo = {}, {}, []
+    metric = rng.random() < 0.4
     ndep = rng.randint(0, len(variables))
     order = list(variables)
     rng.shuffle(order)
@@ -1050,7 +1115,7 @@ def gen_l2(rng, tag):
             if cn and rng.random() < 0.4:
                 c = rng.choice(cn)
                 deps.append((c, ('s', 0), 4, 1))
-            e, t, b, d = gen_formula(rng, deps)
+            e, t, b, d = gen_formula(rng, deps, allow_vec=False, extras=('percent', 'funcs') + (('metric',) if metric else ()))
             if e[0] == 'vec' or t[0] != 's':
                 e, t = ('mul', e, e), ('s', 0)
                 b = b * b * 3
@@ -1079,7 +1144,7 @@ def gen_l2(rng, tag):
             if nm not in variables and nm not in watch:
                 student_extra.append(nm)
     return {'level': 'L2', 'variables': variables, 'numbered': heads, 'sf': sf, 'user_consts': user_consts, 'watch': watch,
-            'student_extra': student_extra, 'samples': rng.choice([1, 2, 3]), 'variant': variant,
+            'student_extra': student_extra, 'samples': rng.choice([1, 2, 3]), 'variant': variant, 'metric': metric,
             'suppress': any(c in DEFAULT_CONST_SPECS for c in user_consts) or any(v in DEFAULT_CONST_SPECS for v in variables + heads)}
 
 
@@ -1098,8 +1163,8 @@ def run_l2(cfg, patience=8):
         sample_from = {s: make_sampler(s, cfg['sf'][s]) for s in cfg['sf']}
         return FormulaGrader(answers=answer, variables=list(cfg['variables']), numbered_vars=list(cfg['numbered']),
                              sample_from=sample_from, user_constants={c: const_value(v) for c, v in cfg['user_consts'].items()},
-                             user_functions={'rec': make_recorder(max(1, len(watch)), seen)} if watch else {},
-                             samples=cfg['samples'], suppress_warnings=cfg['suppress'])
+                             user_functions=dict(USER_FUNCS, **({'rec': make_recorder(len(watch), seen)} if watch else {})),
+                             metric_suffixes=bool(cfg.get('metric')), samples=cfg['samples'], suppress_warnings=cfg['suppress'])
     st, g = core.guarded(build, seconds=LONG)
     if st != 'ret':
         return 'construct-' + st, g, seen, calls, []
@@ -1175,7 +1240,7 @@ def oracle_l2(cfg, st, out, seen, log):
                 if not expr_vars(e) <= set(watch):
                     continue
                 others = {key: val for key, val in vals.items() if key != nm}
-                est, ev = core.guarded(evaluator, render(e), others, DEFAULT_FUNCTIONS, DEFAULT_SUFFIXES, seconds=LONG)
+                est, ev = core.guarded(evaluator, render(e), others, *eval_scope(cfg.get('metric')), seconds=LONG)
                 if est != 'ret':
                     fails.append('sample %d: formula of %s does not evaluate on the values seen: %r' % (i, nm, ev))
                 elif not same_value(complex(ev[0]), complex(vals[nm])):
@@ -1280,25 +1345,51 @@ def level2(ctx, res, rng):
         res.disagreements.append({'level': 'L2', 'case': metas[i]})
 
 
-# --- siblings: ListGrader passes the student's sibling inputs as dependent variables -----------------------------
+# --- siblings: an ordered ListGrader hands every grader the inputs of all boxes; a FormulaGrader-family grader turns the
+#     inputs of its FormulaGrader-family siblings into dependent variables sibling_<position of the box, from 1> -----------
+FORMULA_FAMILY = ('formula', 'matrix', 'numerical', 'rec')
+
+
+def box_input(box):
+    return box['input'] if isinstance(box['input'], str) else render(fromlist(box['input']))
+
+
 def run_sib(cfg, patience=8):
-    from mitxgraders import FormulaGrader, ListGrader
+    from mitxgraders import FormulaGrader, ListGrader, StringGrader, NumericalGrader, MatrixGrader
     from mitxgraders import sampling
     from mitxgraders.helpers import math_helpers
     sampling.set_seed(1)
     seen, calls = [], []
     watch = cfg['watch']
+    user_consts = {c: const_value(v) for c, v in cfg['user_consts'].items()}
 
     def build():
-        sample_from = {s: make_sampler(s, cfg['sf'][s]) for s in cfg['sf']}
-        sub = FormulaGrader(variables=list(cfg['variables']), sample_from=sample_from, samples=cfg['samples'],
-                            user_functions={'rec': make_recorder(len(watch), seen)})
-        answers = [render(fromlist(e)) for e in cfg['inputs'][:-1]] + ['rec(%s)' % ','.join(watch)]
-        return ListGrader(answers=answers, subgraders=sub, ordered=True)
+        graders, answers = [], []
+        for pos, box in enumerate(cfg['boxes']):
+            kind = box['kind']
+            if kind == 'string':
+                graders.append(StringGrader())
+                answers.append('cat')
+                continue
+            if kind == 'numerical':
+                graders.append(NumericalGrader())
+                answers.append(box_input(box))
+                continue
+            sample_from = {v: make_sampler('box%d/%s' % (pos, v) if kind != 'rec' else v, cfg['sf'][v]) for v in cfg['sf']}
+            common = dict(variables=list(cfg['variables']), sample_from=sample_from, samples=cfg['samples'],
+                          metric_suffixes=bool(cfg['metric']), user_constants=dict(user_consts))
+            if kind == 'rec':
+                graders.append(FormulaGrader(user_functions=dict(USER_FUNCS, rec=make_recorder(len(watch), seen)), **common))
+                answers.append('rec(%s)' % ','.join(watch))
+            else:
+                cls = FormulaGrader if kind == 'formula' else MatrixGrader
+                graders.append(cls(user_functions=dict(USER_FUNCS), **common))
+                answers.append(box_input(box))
+        return ListGrader(answers=answers, subgraders=graders, ordered=True)
     st, g = core.guarded(build, seconds=LONG)
     if st != 'ret':
         return 'construct-' + st, g, seen, calls
-    inputs = [render(fromlist(e)) for e in cfg['inputs'][:-1]] + ['0']
+    inputs = [box_input(b) for b in cfg['boxes']]
     orig = math_helpers.gen_symbols_samples
 
     def wrapped(symbols, samples, sample_from, functions, suffixes, constants):
@@ -1323,59 +1414,100 @@ def run_sib(cfg, patience=8):
     return st, out, seen, calls
 
 
+def sib_consts(cfg):
+    consts = dict(DEFAULT_CONST_SPECS)
+    consts.update(cfg['user_consts'])
+    return consts
+
+
 def oracle_sib(cfg, st, out, seen):
+    """sibling_j, as seen by the author's function, is the input of box j (counting every box of the ListGrader)
+    evaluated on the other values of the same sample"""
     watch, k = cfg['watch'], cfg['samples']
     if st != 'ret':
         return ['ListGrader call with sibling variables failed: %s %r' % (st, out)]
     if len(seen) != k:
         return ['recording function called %d times for %d samples' % (len(seen), k)]
+    consts = {c: canon(const_value(v)) for c, v in sib_consts(cfg).items() if c not in cfg['variables']}
     fails = []
     for i, t in enumerate(seen):
         vals = dict(zip(watch, t))
-        for j, e in enumerate(cfg['inputs'][:-1]):
+        for j, box in enumerate(cfg['boxes']):
             nm = 'sibling_%d' % (j + 1)
-            if nm not in vals:
+            if nm not in vals or isinstance(box['input'], str):
                 continue
+            env = dict(consts)
+            env.update({key: canon(v) for key, v in vals.items() if key != nm})
             try:
-                exact = fr_eval(fromlist(e), {key: canon(v) for key, v in vals.items() if key != nm})
+                exact = fr_eval(fromlist(box['input']), env)
             except FormulaError:
                 continue
             if canon(vals[nm]) != exact:
-                fails.append('sample %d: %s seen as %r but the sibling input %s gives %r on the other values seen'
-                             % (i, nm, vals[nm], render(fromlist(e)), exact))
+                fails.append('sample %d: %s seen as %r but the input of box %d, %s, gives %r on the other values seen'
+                             % (i, nm, vals[nm], j + 1, box_input(box), exact))
     return fails
 
 
-def sib_cases(ctx, res, rng, dist, terms, metas):
-    n = 40 if ctx['tier'] == 'quick' else 400
-    for g in range(n):
-        nv = rng.randint(1, 3)
-        variables = rng.sample(L2_VARS, nv)
-        sf = {v: ['ind', 'int', 10 * (i + 1), stable_seed('sib', ctx['seed'], g, v)] for i, v in enumerate(variables)}
-        nbox = rng.randint(2, 4)
-        inputs = []
-        for j in range(nbox - 1):
+def gen_sib(rng, tag):
+    nv = rng.randint(1, 3)
+    variables = rng.sample(L2_VARS, nv)
+    sf = {v: ['ind', 'int', 10 * (i + 1), stable_seed(tag, v)] for i, v in enumerate(variables)}
+    metric = rng.random() < 0.4
+    user_consts = dict(rng.sample([c for c in USER_CONST_POOL if c[1][0] in ('int', 'float') and c[0] not in variables],
+                                  rng.randint(0, 2)))
+    nbox = rng.randint(2, 5)
+    rec_pos = rng.randrange(nbox)
+    boxes = []
+    extras = ('percent', 'funcs') + (('metric',) if metric else ())
+    for pos in range(nbox):
+        if pos == rec_pos:
+            boxes.append({'kind': 'rec', 'input': ['num', 0]})
+            continue
+        kind = rng.choice(['formula', 'formula', 'string', 'numerical', 'matrix'])
+        if kind == 'string':
+            boxes.append({'kind': kind, 'input': rng.choice(['cat', 'dog'])})
+        elif kind == 'numerical':
+            e, t, b, d = gen_formula(rng, [], allow_vec=False)
+            boxes.append({'kind': kind, 'input': tolist(e)})
+        else:
             avail = [(v, ('s', 0), 20 * (len(variables) + 1), 0) for v in variables]
             deps = rng.sample(avail, rng.randint(1, len(avail)))
-            e, t, b, d = gen_formula(rng, deps, allow_vec=False)
-            inputs.append(tolist(e))
-        inputs.append(['num', 0])
-        watch = list(variables) + ['sibling_%d' % (j + 1) for j in range(nbox - 1)]
-        rng.shuffle(watch)
-        cfg = {'level': 'SIB', 'variables': variables, 'sf': sf, 'inputs': inputs, 'watch': watch, 'samples': rng.choice([1, 2])}
+            for c in user_consts:
+                if rng.random() < 0.4:
+                    deps.append((c, ('s', 0), 4, 1))
+            e, t, b, d = gen_formula(rng, deps, allow_vec=(kind == 'matrix'), extras=extras)
+            boxes.append({'kind': kind, 'input': tolist(e)})
+    sibs = ['sibling_%d' % (pos + 1) for pos, b in enumerate(boxes) if b['kind'] in ('formula', 'matrix', 'numerical')]
+    watch = list(variables) + sibs + [c for c in user_consts]
+    rng.shuffle(watch)
+    return {'level': 'SIB', 'variables': variables, 'sf': sf, 'boxes': boxes, 'watch': watch, 'metric': metric,
+            'user_consts': user_consts, 'samples': rng.choice([1, 2])}
+
+
+def sib_cases(ctx, res, rng, dist, terms, metas):
+    n = 60 if ctx['tier'] == 'quick' else 500
+    for g in range(n):
+        cfg = gen_sib(rng, 'sib/%d/%d' % (ctx['seed'], g))
+        variables, sf, watch, boxes = cfg['variables'], cfg['sf'], cfg['watch'], cfg['boxes']
         st, out, seen, calls = run_sib(cfg)
         res.oracle_evals += 1
         for text in oracle_sib(cfg, st, out, seen):
             res.witnesses.append({'key': 'SIB:' + cfg_key(cfg), 'kind': 'siblings', 'cfg': cfg, 'what': text})
             break
         res.nontrivial.add(('SIB', cfg_key(cfg)))
-        # correspondence: the gen_symbols_samples call of the last box (the one that received the sibling formulas)
-        sib_calls = [c for c in calls if any(x.startswith('sibling_') for x in c['symbols'])]
-        if not sib_calls:
-            res.notes.append('siblings: no gen_symbols_samples call received sibling variables (%s %r)' % (st, out))
+        dist['sibling lists with a non-formula box'] = dist.get('sibling lists with a non-formula box', 0) + \
+            (1 if any(b['kind'] == 'string' for b in boxes) else 0)
+        # correspondence: the gen_symbols_samples call made for the recording box
+        sibs = [('sibling_%d' % (pos + 1), fromlist(b['input'])) for pos, b in enumerate(boxes)
+                if b['kind'] in ('formula', 'matrix', 'numerical') and 'sibling_%d' % (pos + 1) in watch]
+        rec_calls = [c for c in calls if set(c['symbols']) >= set(variables) and
+                     (any(x.startswith('sibling_') for x in c['symbols']) or not sibs) and c['log'] and
+                     all(tag in variables for tag, _ in c['log'])]
+        if not rec_calls:
+            if sibs:
+                res.notes.append('siblings: no gen_symbols_samples call received sibling variables (%s %r)' % (st, out))
             continue
-        call = sib_calls[-1]
-        sibs = [('sibling_%d' % (j + 1), fromlist(e)) for j, e in enumerate(inputs[:-1])]
+        call = rec_calls[-1]
         used = set(watch)
         for _, e in sibs:
             used |= expr_vars(e)
@@ -1388,9 +1520,9 @@ def sib_cases(ctx, res, rng, dist, terms, metas):
             continue
         terms.append('(([%s], [], [%s], [%s], %s, %s, %s, %s, [%s], %s), ([%s], %s, []))' % (
             '; '.join('"%s"' % v for v in variables), '; '.join('"%s"' % u for u in sorted(used)),
-            '; '.join('("%s", %s)' % (k, coq_expr(e)) for k, e in sibs), sf_term(sf), consts_term(DEFAULT_CONST_SPECS), d,
+            '; '.join('("%s", %s)' % (k, coq_expr(e)) for k, e in sibs), sf_term(sf), consts_term(sib_consts(cfg)), d,
             core.qlit(0), '; '.join('"%s"' % x for x in call['symbols']), o, '; '.join('"%s"' % k for k, _ in sibs), sa))
-        metas.append({'variables': variables, 'siblings': {k: render(e) for k, e in sibs}, 'symbols_seen': call['symbols']})
+        metas.append({'variables': variables, 'boxes': [(b['kind'], box_input(b)) for b in boxes], 'symbols_seen': call['symbols']})
     dist['sibling ListGrader calls'] = n
 
 
@@ -1440,8 +1572,9 @@ def replay(w):
     if kind == 'siblings':
         st, out, seen, _ = run_sib(cfg)
         fails = oracle_sib(cfg, st, out, seen)
-        return bool(fails), 'ListGrader with sibling inputs %r -> %s %r\n%s' % (
-            [render(fromlist(e)) for e in cfg['inputs']], st, out, '\n'.join(fails[:3]))
+        return bool(fails), 'ordered ListGrader, boxes %r (metric_suffixes=%r, user_constants=%r), recording rec(%s) -> %s %r\n%s' % (
+            [(b['kind'], box_input(b)) for b in cfg['boxes']], cfg['metric'], cfg['user_consts'], ','.join(cfg['watch']),
+            st, out, '\n'.join(fails[:3]))
     return False, 'unknown witness kind %r' % kind
 
 
